@@ -220,14 +220,43 @@ static bool typedWrite(const std::string &ty, const std::string &val, std::vecto
 }
 
 // ---- typed reads -----------------------------------------------------------------------------
+// "read back ... yields equal values" must not depend on what the destination held before: the same
+// read is also made from a copy of the reader into a destination that already holds other data
+// (a reused std::string / std::vector in a decode loop); the two results must agree.
+template <typename T> struct Dirty {
+  static void make(T &x) { std::memset((void *)&x, 0xa5, sizeof(T)); }
+};
+template <> struct Dirty<std::string> {
+  static void make(std::string &x) { x = "previous-content"; }
+};
+template <typename T> struct Dirty<std::vector<T>> {
+  static void make(std::vector<T> &v)
+  {
+    v.resize(3);
+    for (auto &e : v) Dirty<T>::make(e);
+  }
+};
 struct ReadOp {
   BufferReader &r;
   std::string out;
   template <typename T> void run()
   {
+    BufferReader r2(r);
+    std::string dirtyOut;
+    bool dirtyThrew = false;
+    try {
+      T y{};
+      Dirty<T>::make(y);
+      r2 >> y;
+      dirtyOut = Codec<T>::show(y);
+    } catch (const std::exception &) {
+      dirtyThrew = true;
+    }
     T x{};
     r >> x;
     out = Codec<T>::show(x);
+    if (dirtyThrew || dirtyOut != out || r2.cursor != r.cursor)
+      out += " reused-destination-differs:" + (dirtyThrew ? std::string("throw") : dirtyOut);
   }
 };
 struct ArrReadOp {  // arrays have no operator>>: count, then a zero-copy view of count*sizeof(T) bytes
